@@ -34,6 +34,8 @@ FUNCS = [
     # `self.<attr>` and returns self becomes a function returning the new record (O = a Chunk)
     # T = a str-or-list argument (`order`: "C", "F" or an explicit list of axes)
     ("MkOrder", "array.py", "mk_order", "TL"),
+    # a generator: the list of the values it yields (a yielded number as a one-element tuple)
+    ("IterIndex", "array.py", "iter_index", "LL"),
     # the byte-moving primitives of the two CPU buffer kinds: B = the buffer object (a record with the attribute `buffer`, a list of
     # bytes), Y = a bytes-like argument (a list of bytes); a method that assigns to a slice of `self.buffer` (or of a bytes argument)
     # returns the new buffer object (the new bytes)
@@ -190,6 +192,9 @@ class Tr:
             if x.keywords:
                 raise Unsupported("keyword arguments")
             if isinstance(f, ast.Attribute):
+                if f.attr == "ndindex" and isinstance(f.value, ast.Name) and f.value.id == "np" and len(x.args) == 1 \
+                        and isinstance(x.args[0], ast.Starred):
+                    return f"(Py.ndindex {self.e(x.args[0].value)})"
                 if f.attr == "_new_buffer" and isinstance(f.value, ast.Name) and self.kind_of(f.value.id) == "X" and len(x.args) == 1:
                     return f"(Py.new_buffer {self.e(x.args[0])})"
                 if f.attr == "to_bytearray" and isinstance(f.value, ast.Name) and self.kind_of(f.value.id) == "C" and len(x.args) == 2:
@@ -246,6 +251,10 @@ class Tr:
         return out
 
     def s(self, s, ind):
+        if isinstance(s, ast.Expr) and isinstance(s.value, ast.Yield):
+            v = s.value.value
+            item = f"[{self.e(v)}]" if isinstance(v, ast.Name) else self.e(v)
+            return [ind + f"out_ := out_ ++ [{item}]"]
         if isinstance(s, ast.Expr):
             if isinstance(s.value, ast.Constant) and isinstance(s.value.value, str):
                 return []          # docstring
@@ -348,9 +357,14 @@ class Tr:
         params = " ".join(f"({a.arg + ('0' if k in 'OBYXC' else '')} : {ty[k]})" for a, k in zip(self.fn.args.args, self.kinds))
         if len(self.fn.args.args) != len(self.kinds) or self.fn.args.vararg or self.fn.args.kwarg or self.fn.args.defaults:
             raise Unsupported("signature changed")
-        body = [f"  let mut {o} := {o}0" for o in objs] + self.block(self.fn.body, "  ")
+        is_gen = any(isinstance(n, (ast.Yield, ast.YieldFrom)) for n in ast.walk(self.fn))
+        if is_gen and (self.raises or any(isinstance(n, ast.Return) for n in ast.walk(self.fn))):
+            raise Unsupported("generator with return / raise")
+        body = [f"  let mut {o} := {o}0" for o in objs] + (["  let mut out_ : List (List Int) := []"] if is_gen else []) + self.block(self.fn.body, "  ")
+        if is_gen:
+            body.append("  return out_")
         last = self.fn.body[-1]
-        if not self.raises and not any(isinstance(n, ast.Return) for n in ast.walk(self.fn)):
+        if not is_gen and not self.raises and not any(isinstance(n, ast.Return) for n in ast.walk(self.fn)):
             if len(self.mutated) != 1:
                 raise Unsupported("a procedure that changes none or several of its arguments")
             body.append(f"  return {next(iter(self.mutated))}")
